@@ -174,6 +174,8 @@ pub struct Quirks {
     pub dup_header_params: Vec<(String, String, bool)>,
     /// unknown parameters (`Filler<i>=x`) inserted at the front of the Authorization parameter list
     pub header_param_fillers: usize,
+    /// empty elements in the Authorization parameter list (", ," / ",,"): skipped by the parser
+    pub header_param_empties: usize,
     /// extra Authorization headers: (value, before the real one)
     pub dup_authorization: Vec<(Vec<u8>, bool)>,
     /// repeated X-Amz-* query parameters: (name, value, before the real one). These are part of
@@ -680,14 +682,16 @@ pub fn render(m: &Message, t: &mut Tape, o: &RenderOpts) -> Wire {
         let a = &m.auth;
         let mut params: Vec<String> = Vec::new();
         let push = |params: &mut Vec<String>, name: &str, val: String| {
+            // (a duplicate may carry a look-alike of the name: it travels next to the real one)
+            let anchor = |n: &str| n.trim_matches(|c| c == '\u{a0}' || c == '\u{85}').eq_ignore_ascii_case(name);
             for (n, dv, before) in &q.dup_header_params {
-                if n == name && *before {
+                if anchor(n) && *before {
                     params.push(format!("{}={}", n, dv));
                 }
             }
             params.push(format!("{}={}", name, val));
             for (n, dv, before) in &q.dup_header_params {
-                if n == name && !*before {
+                if anchor(n) && !*before {
                     params.push(format!("{}={}", n, dv));
                 }
             }
@@ -716,6 +720,10 @@ pub fn render(m: &Message, t: &mut Tape, o: &RenderOpts) -> Wire {
             // parameters the verifier does not know are ignored, however many there are
             let pos = (i * 7) % (params.len() + 1);
             params.insert(pos, format!("Filler{}=x", i));
+        }
+        for i in 0..q.header_param_empties {
+            let pos = (1 + i * 3) % (params.len() + 1);
+            params.insert(pos, String::new());
         }
         let mut v = q.algorithm.clone().unwrap_or_else(|| "AWS4-HMAC-SHA256".into());
         if !params.is_empty() {
